@@ -132,6 +132,10 @@ func cmdCheck(args []string) int {
 	}
 	sort.Slice(todo, func(i, j int) bool { return relFuncName(todo[i].fn) < relFuncName(todo[j].fn) })
 	for _, t := range todo {
+		if t.c.Opts["trusted"] == "true" {
+			sum.Assump["TRUSTED contract (not verified, used at call sites): "+relFuncName(t.fn)] = true
+			continue
+		}
 		x, err := w.verifyFunc(t.fn, t.c)
 		name := relFuncName(t.fn)
 		sum.Funcs = append(sum.Funcs, name)
